@@ -4,4 +4,5 @@ import Driver.Gated
 import Driver.Dispatch
 import Driver.FileSink
 import Driver.Sinks
+import Driver.Json
 import Driver.Main
